@@ -83,16 +83,41 @@ pub fn materialize(c: &FaultCase) -> Option<(Ty, Vec<u8>, Vec<u8>, String)> {
 
 // ------------------------------------------------------------------------------------------------ C05
 
-fn alloc_bounds(n: usize) -> (usize, usize) {
+/// how many elements the *type* (not the input) can demand per input byte: a fixed-size array [T; N] of elements
+/// with an empty encoding is N elements for the one byte of its count, and nesting multiplies
+fn array_factor(t: &Ty, seen: &mut Vec<String>) -> usize {
+    use Ty::*;
+    match t {
+        Array(e, n) => (*n).max(1).saturating_mul(array_factor(e, seen)),
+        Option(a) | Vec(a) | LinkedList(a) | HashSet(a) | BTreeSet(a) | Box(a) | Rc(a) | Arc(a) => array_factor(a, seen),
+        Result(a, b) | HashMap(a, b) | BTreeMap(a, b) => array_factor(a, seen).max(array_factor(b, seen)),
+        Tuple(ts) => ts.iter().map(|t| array_factor(t, seen)).max().unwrap_or(1),
+        Adt(d) => {
+            if seen.contains(&d.name) {
+                return 1;
+            }
+            seen.push(d.name.clone());
+            let fields: std::vec::Vec<&vmodel::Field> = match &d.body {
+                vmodel::DeclBody::Struct(r) => r.fields.iter().collect(),
+                vmodel::DeclBody::Enum { variants, .. } => variants.iter().flat_map(|v| v.record.fields.iter()).collect(),
+            };
+            fields.iter().map(|f| array_factor(&f.ty, seen)).max().unwrap_or(1)
+        }
+        _ => 1,
+    }
+}
+
+fn alloc_bounds(ty: &Ty, n: usize) -> (usize, usize) {
     let s = vcat::LIVE_SIZE;
-    ((64 << 10) + (32 * s + 256) * (n + 1), (64usize << 10).max(2 * s * (n + 1)))
+    let a = array_factor(ty, &mut Vec::new());
+    ((64 << 10) + (32 * s + 256) * (n + 1) * a, (64usize << 10).max(2 * s * (n + 1) * a))
 }
 
 /// decodes `bytes` as `ty` under the allocation counters; Err(description) on a C05 violation
 fn total_decode(ty: &Ty, bytes: &[u8]) -> Result<bool, String> {
     vcat::prepare(ty);
     let (res, stats) = measure(|| guarded(|| vcat::decode_only(ty, bytes).is_ok()));
-    let (peak_bound, req_bound) = alloc_bounds(bytes.len());
+    let (peak_bound, req_bound) = alloc_bounds(ty, bytes.len());
     if stats.max_request > req_bound {
         return Err(format!("decoding {} bytes as {} made a single allocation request of {} bytes (bound {}): input {}", bytes.len(), ty.render(), stats.max_request, req_bound, hex(&bytes[..bytes.len().min(64)])));
     }
@@ -256,7 +281,7 @@ pub fn run_c05(cx: &Cx) -> PropResult {
     let mut r = PropResult::new(
         acc,
         "fault_enumeration",
-        "inputs: (a) EVERY byte string of length <= 2 (thorough, release profile: <= 3 for leaf and one-level types) for a fixed list of types covering every leaf, every constructor and hand-written derived declarations with every evolution step kind (exhaustive for that sub-space); (b) random byte strings up to 4 KiB (length skewed short) against generated types incl. derived/evolved declarations; (c) structure-aware tampering of valid encodings — in the writer's form or, for a quarter of the cases, with sequence nodes in unknown-length form — (1-3 composed operators on the reference encoder's site map: rewrite a chunk size / count / length / constructor index / back-reference to 0, 1, v+-1, 2v, -1..-4, i32::MIN, i32::MAX, u32::MAX; replace version / tag / flag / position bytes; delete, duplicate, swap, splice element and chunk ranges; truncate; append; bit flips; over-long varints); (d) generated op sequences on SliceInput / OwnedInput / DeserializationContext with adversarial counts (usize::MAX, usize::MAX - pos, remaining +- 2). Oracle: Ok or Err — no unwind (catch_unwind), no process death or hang (supervisor watches the slot file: a case running > 90 s is re-run alone twice), and under a tracking allocator peak live heap <= 64 KiB + (32*S+256)*(n+1) (a B-tree leaf holds 11 slots however few elements it has) and no single request above max(64 KiB, 2*S*(n+1)) for input length n, S = size_of of the harness element type. Both the overflow-checked and the release profile are run. Non-trivial = the input is not a valid encoding of the type (per the reference decoder) and is non-empty.",
+        "inputs: (a) EVERY byte string of length <= 2 (thorough, release profile: <= 3 for leaf and one-level types) for a fixed list of types covering every leaf, every constructor and hand-written derived declarations with every evolution step kind (exhaustive for that sub-space); (b) random byte strings up to 4 KiB (length skewed short) against generated types incl. derived/evolved declarations; (c) structure-aware tampering of valid encodings — in the writer's form or, for a quarter of the cases, with sequence nodes in unknown-length form — (1-3 composed operators on the reference encoder's site map: rewrite a chunk size / count / length / constructor index / back-reference to 0, 1, v+-1, 2v, -1..-4, i32::MIN, i32::MAX, u32::MAX; replace version / tag / flag / position bytes; delete, duplicate, swap, splice element and chunk ranges; truncate; append; bit flips; over-long varints); (d) generated op sequences on SliceInput / OwnedInput / DeserializationContext with adversarial counts (usize::MAX, usize::MAX - pos, remaining +- 2). Oracle: Ok or Err — no unwind (catch_unwind), no process death or hang (supervisor watches the slot file: a case running > 90 s is re-run alone twice), and under a tracking allocator peak live heap <= 64 KiB + (32*S+256)*(n+1)*A (a B-tree leaf holds 11 slots however few elements it has) and no single request above max(64 KiB, 2*S*(n+1)*A) for input length n, S = size_of of the harness element type, A = product of the nested fixed-size array lengths of the type (an array of empty-encoded elements is N elements for one count byte, by type, not by input). Both the overflow-checked and the release profile are run. Non-trivial = the input is not a valid encoding of the type (per the reference decoder) and is non-empty.",
     );
     r.exhaustive = Some(true);
     r.extra = json!({"exhaustive_max_len": ml, "exhaustive_note": "exhaustive refers to sub-space (a); (b)-(d) are sampled", "element_size_S": vcat::LIVE_SIZE});
